@@ -140,8 +140,39 @@ def make_frame(cls_, id_):
     return F()
 
 
+def real_frameseq(line):
+    """one frame object serialised again and again while its payload is replaced (N: a new bytearray object,
+    I: the same object changed in place) - the frame is mutable state, and `any frame` includes an edited one"""
+    p = line.split('|')
+    f = make_frame(int(p[1]), int(p[2]))
+    out = []
+    try:
+        for step in p[3].split(';'):
+            mode, h = step.split(':')
+            pl = bytes.fromhex(h)
+            if mode == 'N':
+                f.data = bytearray(pl)
+            elif mode == 'I':
+                f.data[:] = pl
+            elif mode == 'X':          # in place, one byte at a time
+                del f.data[len(pl):]
+                for k, b in enumerate(pl):
+                    if k < len(f.data):
+                        f.data[k] = b
+                    else:
+                        f.data.append(b)
+            out.append(bytes(f.to_bytes()).hex())
+            if bytes(f.data) != pl:
+                out.append('DATA-CHANGED')
+    except Exception as e:
+        out.append('EXC:' + exc_name(e))
+    return ' '.join(out)
+
+
 def real_frame(line):
     p = line.split('|')
+    if p[0] == 'frameseq':
+        return real_frameseq(line)
     if p[0] == 'frame':
         cls_, id_, pl = int(p[1]), int(p[2]), bytes.fromhex(p[3])
     else:
@@ -162,6 +193,13 @@ def real_frame(line):
 def oracles_frame(line, real_out):
     p = line.split('|')
     what = 'to_bytes() = sync, class, id, 16-bit little-endian length, payload, Fletcher checksum; twice the same; frame unchanged'
+    if p[0] == 'frameseq':
+        outs = real_out.split(' ')
+        steps = p[3].split(';')
+        if len(outs) != len(steps):
+            return [{'prop': 'C01', 'ok': False, 'expected': f'{len(steps)} serialisations', 'observed': real_out[-200:], 'what': what}], []
+        return [], [{'line': f'wire|{p[1]}|{p[2]}|{st.split(":")[1]}', 'expect': o, 'prop': 'C01', 'what': what + ' (the same frame object after its payload was replaced or edited in place)'}
+                    for st, o in zip(steps, outs)]
     if p[0] == 'frame':
         rec = {'prop': 'C01', 'ok': real_out.endswith(' same'), 'expected': 'same', 'observed': real_out[-20:],
                'what': 'serialising twice gives the same bytes and leaves the frame unchanged'}
@@ -183,6 +221,25 @@ def gen_frame(rng, n, profile):
         yield f'framegen|{rng.randrange(256)}|{rng.randrange(256)}|{ln}|{rng.randrange(1 << 30)}|{rng.choice([0, 0, 1, 2])}'
     for c, i in [(0, 0), (255, 255), (0xb5, 0x62)]:
         yield f'frame|{c}|{i}|'
+    for _ in range(max(40, n)):
+        steps = []
+        pl = bytes(rng.randrange(256) for _ in range(rng.choice([0, 1, 2, 12, 40, 255, 256])))
+        for _ in range(rng.randrange(2, 6)):
+            k = rng.random()
+            if k < 0.3 and pl:
+                q = bytearray(pl)
+                q[rng.randrange(len(q))] ^= 1 << rng.randrange(8)      # one byte patched
+                pl = bytes(q)
+            elif k < 0.5:
+                pl = pl + bytes(rng.randrange(256) for _ in range(rng.choice([1, 2, 8])))   # grown
+            elif k < 0.6:
+                pl = pl[:rng.randrange(0, len(pl) + 1)]                                         # shrunk
+            elif k < 0.75:
+                pass                                                                            # unchanged
+            else:
+                pl = bytes(rng.randrange(256) for _ in range(rng.choice([0, 1, 12, 300])))
+            steps.append(rng.choice(['N', 'I', 'I', 'X']) + ':' + pl.hex())
+        yield f'frameseq|{rng.randrange(256)}|{rng.randrange(256)}|' + ';'.join(steps)
 
 
 def reach(a, b):
